@@ -1083,7 +1083,6 @@ var _ = cbornode.DecodeBlock
 var _ = entry.NewOrderedMap
 var _ = rand.Int
 
-
 // oracle16: "the linearisation the unbounded merge would have produced" is obtained by replaying
 // the whole history prefix on a fresh world (identities and hence CIDs are deterministic) with
 // the bounded join replaced by the unbounded one.
